@@ -654,7 +654,8 @@ def impl_read(delimiter, has_header, decimal_separator):
             rows = [list(x) for x in parsers._iter_rows_with_delimiter(p, delimiter, has_header)]
         except Exception as e:       # noqa
             return {'err': exc_class(e) if not isinstance(e, __import__('re').error) else 'regex'}
-        out = {'has_header': not any(c.startswith('h1') for row in rows for c in row[:1])}
+        # two lines in the file: one row left = the first line was skipped (no row at all: a pattern that matches neither line - undetermined)
+        out = {'has_header': None if not rows else len(rows) == 1}
         if isinstance(delimiter, str) and delimiter.startswith('regex:'):
             out['delim'] = 'regex'
         else:
@@ -837,6 +838,9 @@ def run_streams(ctx):
                 # a `regex:` pattern that does not compile: re.error - the model asks the regex oracle, not this probe
                 if ir.get('err') == 'regex':
                     same = mr.get('delim') == 'regex'
+            elif ir['has_header'] is None:
+                stats['read_unprobed_header'] = stats.get('read_unprobed_header', 0) + 1
+                same = ir['delim'] == mr['delim'] and ir['eu'] == mr['eu']
             elif mr['delim'] != 'regex' and mr['delim'] not in ',;|\t :\u2003':
                 stats['read_unprobed_separator'] = stats.get('read_unprobed_separator', 0) + 1     # (a quote / line break as separator: C05's domain)
                 same = ir['has_header'] == mr['has_header'] and ir['eu'] == mr['eu']
